@@ -7,6 +7,7 @@ MC_PLAN = {"module": "MC_Planners.tla", "cfg": "MC_Planners.cfg", "cfg_quick": "
 
 MC_SCR = {"module": "MC_Scratch.tla", "cfg": "MC_Scratch.cfg", "cfg_quick": "MC_Scratch_quick.cfg", "args": ["-maxSetSize", "30000000"], "timeout": 1200}
 MC_EXEC = {"module": "MC_Exec.tla", "cfg": "MC_Exec.cfg", "cfg_quick": "MC_Exec_quick.cfg", "timeout": 2400, "xss": "1g"}
+MC_DF = {"module": "MC_Dataflow.tla", "cfg": "MC_Dataflow.cfg", "timeout": 900}
 MC_THR = {"module": "Threads.tla", "cfg": "MC_Threads3.cfg", "timeout": 600}
 
 APA_LOOP = [{"module": "CallLoop.tla", "init": "Init", "inv": "IndInv", "length": 0},
@@ -55,12 +56,12 @@ PROPS = {
                 "round trips against n*x, and inverse(x) against conj(forward(conj x)); " + NT_PLAN,
     },
     "C07": {
-        "apalache": APA_LOOP, "driver": "c07", "level": "model_checking", "mc": [MC_LAYER, MC_CALL],
+        "apalache": APA_LOOP, "driver": "c07", "level": "model_checking", "mc": [MC_LAYER, MC_CALL, MC_DF],
         "rule": "every (planner kind, f32/f64, n, entry point, k): k-chunk call compared chunk by chunk with the single-chunk result; NaN-poisoned neighbours "
                 "(isolation); non-trivial when k >= 2",
     },
     "C08": {
-        "apalache": APA_SCR, "driver": "c08", "level": "model_checking", "mc": [MC_LAYER, MC_SCR],
+        "apalache": APA_SCR, "driver": "c08", "level": "model_checking", "mc": [MC_LAYER, MC_SCR, MC_DF],
         "rule": "every (planner kind, f32/f64, n, entry point): reference run with zeroed exact scratch, then runs varying scratch length {adv,+1,+17,x2} and "
                 "initial scratch/output contents {0,NaN,+Inf,-Inf,huge}; output bits compared (hash equality decided by TLC); non-trivial when the variant "
                 "differs from the reference run",
@@ -113,7 +114,7 @@ PROPS = {
                 "counting, 24-byte wide; SIMD planners must decline each, the automatic planner must construct; every (type, n, direction); " + NT_PLAN,
     },
     "C15": {
-        "driver": "c15", "level": "model_checking", "mc": [MC_LAYER, MC_CALL],
+        "driver": "c15", "level": "model_checking", "mc": [MC_LAYER, MC_CALL, MC_DF],
         "rule": "every (planner kind, f32/f64, n): immutable-input calls with k in 1..8 and ill-shaped classes; input bits before/after and read-only input pages; "
                 "every case is non-trivial",
     },
